@@ -264,9 +264,21 @@ def judge(case, root, cwd, dest, announced, before, after, result):
 
 def cases(tier):
     out = []
-    nm = names(2 if tier == "quick" else 3)
+    nm = names(2)
     pres = ["none", "file", "dir", "nonempty-dir"]
     accepts = ["on", "off-yes", "off-no"]
+    if tier != "quick":
+        # three-component names: the full configuration matrix would be ~400k sandboxes; they get the two
+        # configurations in which the name alone decides the destination
+        short = set(nm)
+        for mode in ("file", "directory"):
+            for name in names(3):
+                if name in short:
+                    continue
+                for (output, kind) in ((None, None), ("exdir", "existing-dir")):
+                    for acc in ("on", "off-yes"):
+                        out.append(dict(mode=mode, name=name, output=output, output_kind=kind, pre="none", pretmp="none",
+                                        accept=acc, members=BENIGN_ZIP))
     for mode in ("file", "directory"):
         for name in nm:
             for (output, kind) in OUTPUTS:
@@ -283,7 +295,7 @@ def cases(tier):
                         out.append(dict(mode=mode, name=name, output=output, output_kind=kind, pre="none", pretmp=pretmp,
                                         accept=acc, members=BENIGN_ZIP))
     # zip member names
-    mnames = names(2 if tier == "quick" else 3) + ["/etc/passwd", "../../sentinel.txt", "../a-sibling-dir/keep.txt", "../d-evil/x",
+    mnames = names(2) + ["/etc/passwd", "../../sentinel.txt", "../a-sibling-dir/keep.txt", "../d-evil/x",
                                                    "sub/../../other.txt", "./f", "f/", "a/../b", "..", "../", "/", "C:\\x", "a/./b"]
     seen = set()
     memberlists = []
